@@ -64,6 +64,8 @@ def walk_check(roots):
           if v.sym_root is not root:
             return 'root', where + ' reports another root'
           stack.append(v)
+        elif isinstance(n, pg.List) and pg.MISSING_VALUE == v:
+          return 'placeholder', 'deletion placeholder left at index %r of the list at %r' % (k, str(n.sym_path))
         elif isinstance(v, (list, dict)):
           return 'plain-container', 'plain %s stored under %r of %s at %r' % (
               type(v).__name__, k, type(n).__name__, str(n.sym_path))
